@@ -474,7 +474,7 @@ class Shaper(object):
 
     @staticmethod
     def _check_aceptance_threshold(aceptance_threshold):
-        if aceptance_threshold < 0 or aceptance_threshold > 1:
+        if not (0 <= aceptance_threshold <= 1):  # also rejects NaN
             raise ValueError("The acceptance threshold must be a value in [0,1]")
 
     @staticmethod
